@@ -259,11 +259,23 @@ def _impl_flow(case):
 
 
 def _hist_object(case, flow=None):
-    from synkit.CRN.Path.realizability import PathwayRealizability
+    from synkit.CRN.Path.realizability import PathwayRealizability, RealizabilityConfig
     v = list(case["vertices"])
     e = {eid: ({s: c for s, c in tail}, {s: c for s, c in head}) for eid, tail, head in case["edges"]}
     f = {e_: f_ for e_, f_ in (case["flow"] if flow is None else flow)}
-    return PathwayRealizability().load_hypergraph_and_flow(v, e, f), v, e
+    cfg = case.get("config")             # non-default RealizabilityConfig: the bounds of every call made without bounds
+    if cfg is None:
+        pr = PathwayRealizability()
+    elif cfg[0] % 2:
+        pr = PathwayRealizability(RealizabilityConfig(max_states=cfg[0], max_depth=cfg[1]))
+    else:
+        pr = PathwayRealizability(config=RealizabilityConfig(cfg[0], cfg[1]))
+    return pr.load_hypergraph_and_flow(v, e, f), v, e
+
+
+def _hist_defaults(case):
+    cfg = case.get("config")
+    return (DEFAULT_MAX_STATES, DEFAULT_MAX_DEPTH) if cfg is None else (cfg[0], cfg[1])
 
 
 def _hist_call(pr, v, e, op, eidx):
@@ -665,8 +677,8 @@ def coq_case(case):
         for op in case["ops"]:
             k = op[0]
             if k == "R":
-                ops.append("OpReal %s %s" % (cN(DEFAULT_MAX_STATES if op[1] is None else op[1]),
-                                             cN(DEFAULT_MAX_DEPTH if op[2] is None else op[2])))
+                dms, dmd = _hist_defaults(case)
+                ops.append("OpReal %s %s" % (cN(dms if op[1] is None else op[1]), cN(dmd if op[2] is None else op[2])))
             elif k == "S":
                 ops.append("OpScaled %s" % cnat(op[1]))
             elif k == "C":
@@ -680,8 +692,8 @@ def coq_case(case):
                 ops.append("OpBuild")
             elif k == "W":
                 ops.append("OpBorrow %s" % cnat(op[1]))
-        return "run_hist %s %s %s %s" % (clist([cN(rank[s]) for s in case["vertices"]]), ed, cflow(case["flow"]),
-                                         clist(ops))
+        return "run_hist (Cfg %s %s) %s %s %s %s" % (cN(_hist_defaults(case)[0]), cN(_hist_defaults(case)[1]),
+                                                     clist([cN(rank[s]) for s in case["vertices"]]), ed, cflow(case["flow"]), clist(ops))
     raise AssertionError(t)
 
 
@@ -1005,8 +1017,8 @@ def _oracle_hist(case):
                                   detail="%s answered %r, a fresh object with flow %r answers %r" % (where(i), ans, cur, fans)))
         if k == "R" and raw != "ERR":
             ok, cert = raw
-            ms = DEFAULT_MAX_STATES if op[1] is None else op[1]
-            md = DEFAULT_MAX_DEPTH if op[2] is None else op[2]
+            ms = _hist_defaults(case)[0] if op[1] is None else op[1]
+            md = _hist_defaults(case)[1] if op[2] is None else op[2]
             if ok:
                 if cert is None:
                     fails.append(dict(clause="certificate", detail="%s: verdict True without a firing sequence" % where(i)))
@@ -1028,7 +1040,7 @@ def _oracle_hist(case):
             else:
                 for q in range(1, op[1] + 1):
                     tr, nreach, hit = truth([[e_, q * f_] for e_, f_ in cur])
-                    if tr and not hit and nreach <= DEFAULT_MAX_STATES and q * sum(f for _, f in cur) <= DEFAULT_MAX_DEPTH:
+                    if tr and not hit and nreach <= _hist_defaults(case)[0] and q * sum(f for _, f in cur) <= _hist_defaults(case)[1]:
                         fails.append(dict(clause="scaled-complete", detail="%s: %d x %r has an ordering, answer False" % (where(i), q, cur)))
                         break
             built, borrowed = True, False
@@ -1801,6 +1813,8 @@ def gen_histories(n, rng):
         else:
             ops = _rand_ops(rng, base, rng.randint(3, 8))
         c = dict(base, ops=ops)
+        if rng.random() < 0.12:                   # a non-default RealizabilityConfig: tiny, or just enough, or ample
+            c["config"] = [rng.choice([1, 2, 3, 8, 50, 2000]), rng.choice([1, 2, 6, 40, 500])]
         if not _hist_ok(c):
             continue
         cases.append(c)
